@@ -1047,6 +1047,15 @@ func (rr *repRun) removeSnapshot(target, kind string) {
 		if err == nil && len(acts) > 0 {
 			return // violation already raised by prepareRemove
 		}
+		// snapshot removal is refused unless the replica is RW (C17), whatever the target
+		if m.open && m.mode != "RW" && target != m.headParent {
+			var rerr error
+			rr.do("rmraw-wrongmode", func() { rerr = rr.srv.RemoveDiffDisk(target) })
+			if rerr == nil && !rr.stopped() {
+				rr.viol("C17", "removedisk-accepted-in-wrong-mode", "removedisk(%s) succeeded while the replica mode is %s", target, m.mode)
+				return
+			}
+		}
 		// also the raw remove must refuse head/latest
 		if allowed && target == m.headParent {
 			var rerr error
@@ -1401,7 +1410,9 @@ func (rr *repRun) finalChecks() {
 				}
 				continue
 			}
-			if a.Parent != b.Parent || a.Removed != b.Removed || a.UserCreated != b.UserCreated || a.Created != b.Created {
+			// (a stored counter <= 1 is rewritten with the current one on open, by design)
+			if a.Parent != b.Parent || a.Removed != b.Removed || a.UserCreated != b.UserCreated || a.Created != b.Created ||
+				(b.RevisionCounter > 1 && a.RevisionCounter != b.RevisionCounter) {
 				rr.viol("C12", "attributes-changed-on-reopen", "disk %s: before %+v after %+v", n, b, a)
 				return
 			}
